@@ -74,6 +74,7 @@ Eval(e, env) ==
     CASE e.e = "c" -> Ok(IntV(e.v))
       [] e.e = "f" -> IF HasVal(env.vals, e.n) THEN Ok(Lookup(env.vals, e.n)) ELSE Raise
       [] e.e = "rest" -> Ok(IntV(Len(env.raw) - env.cur))
+      [] e.e = "off" -> Ok(IntV(env.cur))
       [] e.e = "ipos" -> Ok(IntV(env.ipos))
       [] e.e = "root" -> IF HasVal(env.root, e.n) THEN Ok(Lookup(env.root, e.n)) ELSE Raise
       [] e.e = "un" ->
